@@ -399,6 +399,12 @@ def standard_build(run: Run, translators, prop_allowed_axioms=()):
     """Obligations o1 (translators) and o2 (build + Prop file + assumptions + forbidden scan)."""
     for name, ok, msg in run_translators(translators):
         run.obligation(f'translator {name} ({TRANSLATORS[name]}) regenerates its model from {REPO}', ok, msg)
+    # the other translators are run as well, so that every generated file a proof may import exists and
+    # describes THIS tree (not the tree of an earlier run); their failure is not this property's obligation -
+    # if the property does depend on one, the build obligation below fails
+    aux = [n for n in sorted(TRANSLATORS) if n not in translators]
+    failed = [f'{n}: {msg}' for n, ok, msg in run_translators(aux) if not ok]
+    run.coverage['auxiliary_translators'] = {'ran': aux, 'failed': failed}
     bad = forbidden_scan()
     run.obligation('no Admitted/admit/Axiom/Parameter/Conjecture/unset checks in coq/', not bad, '; '.join(bad))
     target = f'props/Prop_{run.pid}.vo'
